@@ -305,11 +305,14 @@ Definition parse_rop (t : bytes) : rop :=
   | OPut k cid ct me tg cl c => if bucket_ok (fst k) then QPut k cid ct me tg cl c else QBad
   | OAppend k cid off => if bucket_ok (fst k) then QAppend k cid off else QBad
   | OCopy s d rm ct me rt tg cl => if bucket_ok (fst s) && bucket_ok (fst d) then QCopy s d rm ct me rt tg cl else QBad
-  | ODelete k c => if bucket_ok (fst k) then QDelete k c else QBad
-  | ODeleteMany b es => if bucket_ok b then QDeleteMany b es else QBad
-  | OTag k tg => if bucket_ok (fst k) then QTag k tg else QBad
-  | OUntag k => if bucket_ok (fst k) then QTag k 0 else QBad
-  | OTrans k cl c => if bucket_ok (fst k) then QTrans k cl c else QBad
+  (* calls naming a version id are outside C23 *)
+  | ODelete k c VRNone => if bucket_ok (fst k) then QDelete k c else QBad
+  | ODeleteMany b es =>
+      if bucket_ok b && forallb (fun e : N * cond * vref => match snd e with VRNone => true | _ => false end) es
+      then QDeleteMany b (map fst es) else QBad
+  | OTag k tg VRNone => if bucket_ok (fst k) then QTag k tg else QBad
+  | OUntag k VRNone => if bucket_ok (fst k) then QTag k 0 else QBad
+  | OTrans k cl c VRNone => if bucket_ok (fst k) then QTrans k cl c else QBad
   | OMCreate k ct me tg cl => if bucket_ok (fst k) then QMCreate k ct me tg cl else QBad
   | OMPart u pn cid => QMPart u pn cid
   | OMComplete u => QMComplete u
